@@ -258,6 +258,8 @@ def truth(ctx, st, x):
     if type(x).__name__ == "SliceVal":
         return smt.llen(x.base.t) > x.lo
     if isinstance(x, Opaque):
+        if x.tag in ("requests", "urlopen", "response", "urlopen-handle", "stdout", "stderr", "stdin", "defaultdict"):
+            return z3.BoolVal(True)      # module / handle objects are truthy
         raise OutOfSubset("truthiness of opaque value %r" % (x,))
     if isinstance(x, Seq):
         return z3.Not(seq_empty(x))
